@@ -6,6 +6,7 @@ import TvFs.Model.Spec
 import TvFs.Model.Patterns
 import TvFs.Model.Fragment
 import TvFs.Proofs.Partial
+import TvFs.Proofs.Repairs
 
 namespace TV.C10
 open TV.Fs
@@ -185,5 +186,58 @@ theorem C10_sync_invisible (h1 h2 : List Op) (s : Op) (hs : isSync s = true)
   rfl
 
 example : isSync (.syncDir []) = true := rfl
+
+/-! ### repairs (areas/fs/repairs/*.patch): `witness_F_…` on the code as found, `fixed_F_…` on the
+    model with the repair's flag on (`Model/Fixed.lean`) -/
+
+def fx1 : Fixes := { readOrder := true }
+def fx5 : Fixes := { renameKind := true }
+def fx7 : Fixes := { childRenamedIn := true }
+def fx9 : Fixes := { createOverDir := true }
+
+/-- with every flag off the flagged model is the code-as-found model (on every witness history) -/
+example : runFx {} {} St.init (quiet hist1) = run {} St.init (quiet hist1) := by decide
+example : runFx {} {} St.init (quiet hist5) = run {} St.init (quiet hist5) := by decide
+example : runFx {} {} St.init (quiet hist7) = run {} St.init (quiet hist7) := by decide
+
+theorem witness_F_C10_1 : run {} St.init (quiet hist1) ≠ lRun Live.init hist1 := by decide
+/-- F-C10-1 repaired: the canonical history reads `AB\0\0` -/
+theorem fixed_F_C10_1 : runFx fx1 {} St.init (quiet hist1) = lRun Live.init hist1 := by decide
+/-- F-C10-1 repaired, in general: on any rename/remove-free log the repaired `read_file` equals the
+    incremental reading of the log, shrinking `set_len`s included (the no-shrink hypothesis of
+    `content_eq_inc`, i.e. of `C10_partial`'s fragment, is what the defect cost) -/
+theorem fixed_F_C10_1_general (s : Fs) (h : NoRN s.pending) (p : Path) : contentFx fx1 s p = inc s p :=
+  contentFx_eq_inc s h p
+
+theorem witness_F_C10_5 : run {} St.init (quiet hist5) ≠ lRun Live.init hist5 := by decide
+/-- F-C10-5 narrowed: renaming an *empty* directory works (old name gone, new name a directory) -/
+theorem fixed_F_C10_5 : runFx fx5 {} St.init (quiet hist5) = lRun Live.init hist5 := by decide
+/-- …and a file can then be created and read below the new name, syncs included -/
+def hist5b : List Op :=
+  [.mkdir d, .rename d e, .writeFile (e ++ a) [65], .syncDir [], .syncDir e, .readFile (e ++ a), .readDir e,
+   .stat d]
+theorem fixed_F_C10_5_use : runFx fx5 {} St.init (quiet hist5b) = lRun Live.init hist5b := by decide
+/-- what the local repair cannot reach: a directory renamed *with children* still leaves them under
+    the old name (children are keyed by path) — F-C10-5 stays open for non-empty directories -/
+def hist5c : List Op := [.mkdir d, .writeFile (d ++ a) [65], .rename d e, .readFile (e ++ a)]
+theorem open_F_C10_5_nonempty : runFx fx5 {} St.init (quiet hist5c) ≠ lRun Live.init hist5c := by decide
+
+theorem witness_F_C10_7 : run {} St.init (quiet hist7) ≠ lRun Live.init hist7 := by decide
+theorem fixed_F_C10_7 : runFx fx7 {} St.init (quiet hist7) = lRun Live.init hist7 := by decide
+/-- F-C10-7 repaired, in general: `rmdir` refuses any directory that holds an entry which arrived by
+    a pending rename -/
+theorem fixed_F_C10_7_general (fx : Fixes) (s : Fs) (dd aa t : Path) (hfx : fx.childRenamedIn = true)
+    (hde : dirExistsFx fx s dd = true) (hm : POp.rename aa t ∈ s.pending) (hc : isChildOf t dd = true)
+    (he : (fileExistsFx fx s t || dirExistsFx fx s t) = true) : rmdirFx fx s dd = .error .notempty :=
+  rmdirFx_renamedIn fx s dd aa t hfx hde hm hc he
+
+theorem witness_F_C10_9 : run {} St.init (quiet hist9) ≠ lRun Live.init hist9 := by decide
+theorem fixed_F_C10_9 : runFx fx9 {} St.init (quiet hist9) = lRun Live.init hist9 := by decide
+/-- F-C10-9 repaired, in general: open with create / create_new on a directory path fails
+    (`AlreadyExists` for create_new, `IsADirectory` otherwise) and leaves the fs untouched -/
+theorem fixed_F_C10_9_general (fx : Fixes) (s : Fs) (p : Path) (fl : Flags) (hfx : fx.createOverDir = true)
+    (hd : dirExistsFx fx s p = true) (hf : fileExistsFx fx s p = false) (hc : (fl.c || fl.n) = true) :
+    openFsFx fx s p fl = .error (if fl.n then .alreadyexists else .isdir) :=
+  openFsFx_dir_fails fx s p fl hfx hd hf hc
 
 end TV.C10
